@@ -39,7 +39,9 @@ class Chunked(Suite):
         xs = case['xs']
         it = {'list': lambda: list(xs), 'gen': lambda: (x for x in xs), 'tuple': lambda: tuple(xs),
               'str': lambda: ''.join(chr(x) for x in xs)}[case['kind']]()
-        res = [list(c) for c in chunked(it, case['n'])]
+        import itertools
+        # never more chunks than items (+ slack): a chunker that does not stop must not hang the check
+        res = [list(c) for c in itertools.islice(chunked(it, case['n']), len(xs) + 4)]
         if case['kind'] == 'str':
             res = [[ord(ch) for ch in c] for c in res]
         return res
